@@ -321,7 +321,7 @@ def rand_table(rng, cr=False, empty_rows=False, no_rows=False):
 
 
 def rand_workbook(rng, cls):
-    """cls: 'domain' (the theorem's domain), 'cr' (cells with CR: correspondence only),
+    """cls: 'domain' (the theorem's domain), 'cr' (cells with CR: correspondence + mutual agreement),
     'empty_row', 'no_rows'"""
     k = rng.choice([1, 1, 2, 3, 4])
     names = rng.sample(NAME_POOL, k)
@@ -778,8 +778,12 @@ def _run(ctx, v, rng, m, thorough, scratch):
                         if mf != ("ok", res["json"][1][name]):
                             ctx.disagree("JSONSheetReader sheet", repr((name, h, rows)), repr(mf), repr(res["json"][1][name]))
         # ---- the property's oracle on the implementation
-        if cls != "cr":
+        # (class 'cr': the CSV and XLSX readers newline-normalise a CR, so "cells intact" is not asked;
+        #  the three formats must still agree with each other and all succeed: theorem formats_agree_normalised)
+        if True:
             ok = formats_oracle(res)
+            if cls == "cr" and res["csv"][0] != "ok":
+                ok = False
             # expected content: exactly the abstract workbook (cells intact)
             if ok and res["csv"][0] == "ok":
                 want = {n: (h, rows) for n, (h, rows) in wb.items()}
@@ -859,7 +863,7 @@ def _run(ctx, v, rng, m, thorough, scratch):
         "(70%% written tables incl. all-empty rows / header-only, 30%% mutated text: ragged, blank lines, stray quotes); "
         "_sanitize on grids with None cells / trailing None headers / short and long rows; Dataset.dict getter+setter incl. "
         "duplicate headers and re-ordered dicts; then whole workbooks through the three real readers (70%% in the theorem's "
-        "domain, 10%% CR cells [correspondence only], 10%% all-empty rows, 10%% header-only sheets) and small valid rpft "
+        "domain, 10%% CR cells [correspondence + mutual agreement of the formats], 10%% all-empty rows, 10%% header-only sheets) and small valid rpft "
         "workbooks through create_flows in all formats (80%% valid, 20%% carrying one of the two defect features). "
         "non-trivial = distinct text with a quote or CR / rows with a cell needing quotes / grid where a row was dropped / "
         "workbook read / workbook compiled") % (maxlen, "".join(alpha), small)
